@@ -99,7 +99,8 @@ def spec_tracker(case, infer, out):
                 return "all means NaN but best value %r" % o["bv"]
             continue
         best = max(good) if want_dir == "max" else min(good)
-        if o["bv"] != o["bv"] or abs(F(o["bv"]) - best if best not in (math.inf, -math.inf) else (0 if o["bv"] == best else 1)) > F(1, 2 ** 40):
+        if o["bv"] != o["bv"] or (o["bv"] in (math.inf, -math.inf)) != (best in (math.inf, -math.inf)) or \
+                abs(F(o["bv"]) - best if best not in (math.inf, -math.inf) else (0 if o["bv"] == best else 1)) > F(1, 2 ** 40):
             return "best value of %s is %r, expected %s" % (n, o["bv"], best)
         first = [s for s in steps if means[s] == best][0]   # insertion order of first report
         if o["bs"] != first:
